@@ -210,6 +210,7 @@ func (r *UnitRun) snapshotVars(st *State) map[string]string {
 				m["arr("+name+")"] = v.S.Arr
 			}
 			m["elem("+name+")"] = v.S.ESrt
+			m["off("+name+")"] = v.S.Off
 		case KStruct:
 			for _, k := range sortedKeys(v.F) {
 				if f := v.F[k]; f.K == KInt || f.K == KBool || f.K == KReal {
